@@ -467,6 +467,11 @@ def gen_name(rnd, allow_bad=True, allow_mixed=False):
     return n, kinds
 
 
+def _mw(missing):
+    """/MissingWidth is a number: integer or real."""
+    return missing if missing is None or isinstance(missing, int) else W.Real("%.2f" % float(missing))
+
+
 @st.composite
 def name_cases(draw):
     rnd = random.Random(draw(st.integers(0, 2 ** 32)))
@@ -621,7 +626,7 @@ def font_cases(draw, flavor=None):
         for _ in range(ln):
             r = rnd.random()
             widths.append(rnd.randrange(0, 1500) if r < 0.9 else (0 if r < 0.93 else Fraction(rnd.randrange(0, 6000), 4)))
-        missing = draw(st.sampled_from([None, None, 0, 250, 500, 1000, 777]))
+        missing = draw(st.sampled_from([None, None, 0, 250, 500, 1000, 777, Fraction(555, 2), Fraction(1001, 4)]))
         if flavor == "type3":
             atext, a = draw(st.sampled_from(STD_A))
             dtext = draw(st.sampled_from(["0.001", "0.002", "0.0015", "0.01", "0.004"]))
@@ -723,7 +728,7 @@ def assemble(spec, rnd, size=10, decoy=(), atext=None, dtext=None):
         extra[25] = W.Stream({}, b"500 0 d0\n")
         desc = None
         if missing is not None or rnd.random() < 0.3:
-            desc = put(21, F.font_descriptor("VerifT3", missing, flags=4, bbox=(0, 0, 1000, 1000)), 0.7)
+            desc = put(21, F.font_descriptor("VerifT3", _mw(missing), flags=4, bbox=(0, 0, 1000, 1000)), 0.7)
         fd = F.type3_font_dict(encv, cp, [W.Real(atext), 0, 0, W.Real(dtext), 0, 0], first, put(24, wv, 0.3), descriptor=desc,
                                tounicode=tuv, resources=rnd.random() < 0.5, nwidths=len(wv))
         classes.append("type3-a:" + atext)
@@ -739,14 +744,14 @@ def assemble(spec, rnd, size=10, decoy=(), atext=None, dtext=None):
                 ffs = W.Stream(d, zlib.compress(ffs[2]))
             extra[22] = ffs
             ff = W.R(22)
-        desc = put(21, F.font_descriptor(basefont, missing, flags=32, fontfile=ff), 0.8)
+        desc = put(21, F.font_descriptor(basefont, _mw(missing), flags=32, fontfile=ff), 0.8)
         fd = F.simple_font_dict(subtype, basefont, encv, first, put(24, wv, 0.3), desc, tuv, with_lastchar=rnd.random() < 0.9,
                                 nwidths=len(wv))
     content = F.show_all_codes("F1", size, rnd=rnd)
     pdf = W.page_doc(content, fonts={"F1": fd}, extra=extra)
     desc_out = {"flavor": flavor, "subtype": subtype, "basefont": basefont, "encoding": enc,
                 "builtin": None if builtin is None else len(builtin), "tounicode_codes": None if tu is None else len(tu),
-                "first": first, "nwidths": None if widths is None else len(widths), "missing": missing,
+                "first": first, "nwidths": None if widths is None else len(widths), "missing": None if missing is None else float(missing),
                 "fontmatrix_a": atext, "size": size}
     return {"mode": "font", "pdf": pdf, "size": size, "expect": [list(ex[c]) for c in range(256)], "kf": kf,
             "desc": desc_out, "names": names_for_msg, "classes": classes, "nt": True}
